@@ -102,3 +102,25 @@ fn c03_constructors_register() {
     gc.maybe_trace(f);
     assert!(gc.objects.len() == 2);
 }
+
+/// NOT REGISTERED (does not finish: > 900 s even for GC::mark alone on two objects - the real bitvec index / set).
+/// O03.m [bounded: two managed objects - a float and an array that holds it (plus an immediate) - all-unmarked bitmap]
+/// GC::mark on the real code (real bitvec): marking the array marks the array AND what it refers to; marking the
+/// float marks the float only; marking an immediate or an unmanaged object marks nothing.
+#[kani::proof]
+#[kani::unwind(6)]
+fn c03_mark_reaches_elements() {
+    let mut gc = ManuallyDrop::new(GC::new());
+    gc.objects.reserve(4);
+    let f = Object::float(1.5, &mut gc);
+    let arr = Object::array(vec![f, Object::int(7)], &mut gc);
+    gc.reset_marks();
+    let which: u8 = kani::any();
+    kani::assume(which <= 2);
+    match which {
+        0 => { gc.mark(&arr); assert!(gc.mark_bitmap[0] && gc.mark_bitmap[1]); }
+        1 => { gc.mark(&f); assert!(gc.mark_bitmap[0] && !gc.mark_bitmap[1]); }
+        _ => { gc.mark(&Object::int(3)); assert!(!gc.mark_bitmap[0] && !gc.mark_bitmap[1]); }
+    }
+    assert!(gc.objects.len() == 2 && gc.mark_bitmap.len() == 2);
+}
